@@ -541,6 +541,10 @@ class Session:
         self.check_inv("suspend")
         self.epoch += 1
         fields = PIPE_HAVOC if self.mode == "PIPE" else SEQ_HAVOC
+        if self.mode == "SEQ" and getattr(self, "phase", 1) == 2:
+            # a transfer task runs concurrently with the commands that follow its 150 reply: those may change the working
+            # directory, the pending rename and the type (re-login and REST during a transfer: not explored, see index)
+            fields = SEQ_HAVOC + ["current_directory", "rename_from", "transfer_type"]
         self.arbitrary_state(fields=fields)
         it.ctx.event("suspend", what)
 
